@@ -93,6 +93,8 @@ fn ioop_strategy() -> BoxedStrategy<IoOp> {
         6 => (slot.clone(), d).prop_map(|(s, d)| IoOp::Write(s, d)),
         3 => (slot.clone(), any::<u16>()).prop_map(|(s, f)| IoOp::Seek(s, f)),
         2 => (slot.clone(), proptest::sample::select(vec![0u16, 1, 64, 1000, 4095, 4096, 6000])).prop_map(|(s, l)| IoOp::SetLen(s, l)),
+        // a single set_len over several MiB (encoded as 60000 + MiB count)
+        1 => (slot.clone(), proptest::sample::select(vec![60002u16, 60003, 60005])).prop_map(|(s, l)| IoOp::SetLen(s, l)),
         3 => slot.clone().prop_map(IoOp::Flush),
         1 => slot.prop_map(IoOp::Close),
     ]
@@ -340,10 +342,11 @@ fn report(c: &C14Case) -> CaseReport {
                             pos[k] = t;
                         }
                         IoOp::SetLen(_, l) => {
-                            h.set_len(*l as u64).map_err(|e| Fail::new("mismatch|h_set_len|concurrent|Ok|Err", e.to_string()))?;
-                            data.resize(*l as usize, 0);
-                            pos[k] = pos[k].min(*l as u64);
-                            allowed.entry(path.to_string()).or_default().insert(*l as u64);
+                            let l: u64 = if *l >= 60000 { (*l as u64 - 60000) * 1024 * 1024 + 512 * 1024 } else { *l as u64 };
+                            h.set_len(l).map_err(|e| Fail::new("mismatch|h_set_len|concurrent|Ok|Err", e.to_string()))?;
+                            data.resize(l as usize, 0);
+                            pos[k] = pos[k].min(l);
+                            allowed.entry(path.to_string()).or_default().insert(l);
                         }
                         IoOp::Flush(_) => {
                             h.flush().map_err(|e| Fail::new("mismatch|h_flush|concurrent|Ok|Err", e.to_string()))?;
